@@ -14,6 +14,33 @@ pub mod verif;
 pub use commands::{Command, CommandContext, CommandHandler, CommandRegistry, CommandResult};
 pub use hooks::{Hook, HookContext, HookEngine, HookEventKind, HookHandler, HookOutcome};
 
+/// Deepest nesting of arrays / objects in `value`: 0 for a scalar, 1 for `[]` or `{}`.
+pub fn json_nesting(value: &serde_json::Value) -> usize {
+    let mut deepest = 0;
+    let mut stack = vec![(value, 0usize)];
+    while let Some((value, depth)) = stack.pop() {
+        match value {
+            serde_json::Value::Array(items) => {
+                deepest = deepest.max(depth + 1);
+                stack.extend(items.iter().map(|item| (item, depth + 1)));
+            }
+            serde_json::Value::Object(map) => {
+                deepest = deepest.max(depth + 1);
+                stack.extend(map.values().map(|item| (item, depth + 1)));
+            }
+            _ => {}
+        }
+    }
+    deepest
+}
+
+/// Deepest payload a frame may carry.  A frame is one object around its payload and a snapshot is one
+/// array around its frames, and serde_json refuses documents nested 128 levels or more: a payload
+/// nested deeper than this would be written to the log / snapshot and never read back (one such line
+/// makes every replay of the store fail).  Code that takes JSON from outside (provider events, tool
+/// arguments) keeps a deeper payload as text instead.
+pub const MAX_PAYLOAD_NESTING: usize = 125;
+
 #[derive(Debug, Clone, Deserialize)]
 pub struct Event {
     pub id: String,
@@ -684,6 +711,39 @@ fn now_ms() -> u64 {
 #[cfg(test)]
 mod tests {
     use super::*;
+
+    #[test]
+    fn json_nesting_counts_arrays_and_objects() {
+        use serde_json::json;
+        assert_eq!(json_nesting(&json!(1)), 0);
+        assert_eq!(json_nesting(&json!([])), 1);
+        assert_eq!(json_nesting(&json!({"a": [1, {"b": []}], "c": 2})), 4);
+    }
+
+    #[test]
+    fn deepest_storable_payload_reads_back_from_log_line_and_snapshot() {
+        let mut payload = serde_json::Value::Null;
+        for _ in 0..MAX_PAYLOAD_NESTING {
+            payload = serde_json::Value::Array(vec![payload]);
+        }
+        assert_eq!(json_nesting(&payload), MAX_PAYLOAD_NESTING);
+        let event = Event {
+            id: "e".to_string(),
+            session_id: "s".to_string(),
+            timestamp_ms: 0,
+            seq: 0,
+            kind: EventKind::ToolStarted {
+                tool_id: "t".to_string(),
+                name: "n".to_string(),
+                args: payload,
+                timeout_ms: None,
+            },
+        };
+        let line = serde_json::to_string(&event).expect("line");
+        assert!(serde_json::from_str::<Event>(&line).is_ok());
+        let snapshot = serde_json::to_string_pretty(&vec![event]).expect("snapshot");
+        assert!(serde_json::from_str::<Vec<Event>>(&snapshot).is_ok());
+    }
 
     #[test]
     fn session_emits_three_events_in_order() {
